@@ -15,8 +15,8 @@ MANIFEST = {
     "technique": 'Lean 4 proof over the executable world model; differential correspondence of whole histories against the real FakeTRX objects; black-box property reference as failing-input oracle',
     "design_ref": "DESIGN.md section 5 C02",
 }
-CORR_PROFILES = ['traffic', 'mixed', 'drop']
-ORACLE_PROFILES = ['traffic', 'drop', 'mixed', 'wrap']
+CORR_PROFILES = ['traffic', 'mixed', 'drop', 'revisit']
+ORACLE_PROFILES = ['traffic', 'drop', 'mixed', 'wrap', 'revisit']
 
 
 def gen(run):
